@@ -80,9 +80,16 @@ def run_isomers(case):
     base = {3: [[50, 20, 30], [60, 25, 15], [10, 70, 20]], 4: [[40, 10, 30, 20], [5, 55, 25, 15]]}[n]
     pct = list(rng.choice(base))
     rng.shuffle(pct)
+    mode = rng.choice(["pct", "abs"])  # shapes the library can infer (see the C12 known finding)
+    if rng.random() < 0.3 and n < len(ISOMERS):
+        # a component declared with a share of 0 % (accepted by the library): its share of the ensemble must be 0, and it must not shift the others
+        k0 = rng.randrange(n)  # never last: the last component carries the absolute mass in this mode
+        pct.insert(k0, 0)
+        smis = rng.sample(ISOMERS, n + 1)
+        n += 1
+        mode = "pct"
     m = Descriptors.HeavyAtomMolWt(Chem.MolFromSmiles(smis[0]))
     M = m * case["nmol"]
-    mode = rng.choice(["pct", "abs"])  # shapes the library can infer (see the C12 known finding)
     parts = []
     for i, (sm, p) in enumerate(zip(smis, pct)):
         if mode == "abs" or (mode == "mixed" and i % 2 == 0) or (mode == "pct" and i == n - 1):
@@ -114,6 +121,28 @@ def run_isomers(case):
             trace.enabled = True
         return [c.get(x, 0.0) / tot for x in canon], tot
 
+    # the same declaration sampled through the single-molecule entry point System.generate
+    def shares_single(seed, k):
+        c = collections.Counter()
+        g_rng = np_rng(seed)
+        trace.enabled = False
+        try:
+            for _ in range(k):
+                g = S.generate(rng=g_rng)
+                c[g.smiles] += 1
+                cnt["single_generations"] += 1
+        finally:
+            trace.enabled = True
+        return [c.get(x, 0) / k for x in canon]
+
+    K = 1200
+    ss = shares_single(case["seed"] + 5, K)
+    bad_s = [i for i in range(n) if abs(ss[i] - declared[i]) > 6.5 * math.sqrt(max(declared[i] * (1 - declared[i]), 0.0) / K) + 3.0 / K]
+    if bad_s:
+        ss2 = shares_single(case["seed"] + 77775, 2 * K)
+        if any(abs(ss2[i] - declared[i]) > 6.5 * math.sqrt(max(declared[i] * (1 - declared[i]), 0.0) / (2 * K)) + 3.0 / (2 * K) for i in bad_s):
+            i = bad_s[0]
+            viol.append({"cls": "c14.equal-mass-components-composition-differs.single-generation", "msg": f"System.generate called {K} / {2 * K} times: component {i} ({smis[i]}) declared {declared[i]:.4f}, drawn with frequency {ss[i]:.4f} and {ss2[i]:.4f} (all {[round(x, 3) for x in ss]} vs declared {[round(x, 3) for x in declared]})", "text": text})
     sh, tot = shares(case["seed"])
     N = tot / m
     bad = [i for i in range(n) if abs(sh[i] - declared[i]) > 6.5 * math.sqrt(declared[i] * (1 - declared[i]) / N) + 3.0 / N]
